@@ -386,7 +386,7 @@ def baseline_off():
                 print(r.stdout[-3000:])
                 return 2
         r = subprocess.run([os.path.join(d, "polyseed-tests")], stdout=subprocess.PIPE, stderr=subprocess.STDOUT, text=True, cwd=d)
-        print(r.stdout[-6000:])
+        print(r.stdout)
         passed = len(re.findall(r"PASSED", r.stdout))
         print("baseline: rc=%d, %d PASSED lines" % (r.returncode, passed))
         return 0 if r.returncode == 0 and "SKIPPED" not in r.stdout else 1
